@@ -22,6 +22,8 @@ type Case struct {
 	// Late: a late problem was planted (augment collision, inapplicable
 	// deviation): the set must not process cleanly.
 	Late string `json:"late,omitempty"`
+	// Wild: statements added without a reference outcome (see addWild).
+	Wild []string `json:"wild,omitempty"`
 }
 
 func kindName(e *yang.Entry) string {
@@ -186,7 +188,10 @@ func check(c Case) (o ev.Outcome) {
 		return
 	}
 	o.Class("clean")
-	o.NonTrivial = steps >= 2
+	for _, f := range c.Wild {
+		o.Class("wild/" + f)
+	}
+	o.NonTrivial = steps >= 2 || len(c.Wild) > 0
 	w := &walker{o: &o, seen: map[*yang.Entry]string{}}
 	ev.Guard(&o, "tree walk", func() {
 		done := map[*yang.Module]bool{}
@@ -261,11 +266,106 @@ func plantInRPC(t *rapid.T, set *ymodel.Set) bool {
 	return true
 }
 
+// addWild adds statements for which there is no reference outcome (C04 needs none: whatever is processed
+// cleanly must be a proper tree): augments whose path names the implicit case of a shorthand choice member,
+// choices put straight into a choice or brought as shorthand by an augment, deviate not-supported of any node,
+// rpc input/output included.
+func addWild(t *rapid.T, set *ymodel.Set) []string {
+	r := yref.New(set)
+	trees := r.Expand()
+	if len(r.Problems) > 0 {
+		return nil
+	}
+	var feats []string
+	leaf := func(n string) *ymodel.Node {
+		return &ymodel.Node{Kind: ymodel.KLeaf, Name: n, Type: &ymodel.TypeRef{Name: "string"}}
+	}
+	choice := func(n string) *ymodel.Node {
+		return &ymodel.Node{Kind: ymodel.KChoice, Name: n, Body: ymodel.Body{Nodes: []*ymodel.Node{
+			leaf(n + "a"),
+			{Kind: ymodel.KContainer, Name: n + "b", Body: ymodel.Body{Nodes: []*ymodel.Node{leaf(n + "bl")}}},
+			{Kind: ymodel.KCase, Name: n + "c", Body: ymodel.Body{Nodes: []*ymodel.Node{leaf(n + "cl")}}},
+		}}}
+	}
+	k := rapid.IntRange(1, 3).Draw(t, "wild")
+	for i := 0; i < k; i++ {
+		from := set.Modules[rapid.IntRange(0, len(set.Modules)-1).Draw(t, "wild-module")]
+		plain := map[*yref.XNode]bool{}
+		for _, x := range schema.Targets(set, trees, from) {
+			plain[x.Node] = true
+		}
+		all := schema.AllNodes(set, trees, from)
+		pick := func(ok func(schema.Target) bool, label string) *schema.Target {
+			var cands []schema.Target
+			for _, x := range all {
+				if ok(x) {
+					cands = append(cands, x)
+				}
+			}
+			if len(cands) == 0 {
+				return nil
+			}
+			return &cands[rapid.IntRange(0, len(cands)-1).Draw(t, label)]
+		}
+		holder := func(k string) bool {
+			switch k {
+			case ymodel.KContainer, ymodel.KList, ymodel.KCase, ymodel.KInput, ymodel.KOutput, ymodel.KNotification:
+				return true
+			}
+			return false
+		}
+		name := fmt.Sprintf("w%d%s", i, strings.ReplaceAll(from.Name, "-", ""))
+		switch rapid.SampledFrom([]string{"late-augment", "choice-into-choice", "shorthand-choice", "not-supported"}).Draw(t, "wild-kind") {
+		case "late-augment":
+			tg := pick(func(x schema.Target) bool { return !plain[x.Node] && (holder(x.Node.Kind) || x.Node.Kind == ymodel.KChoice) }, "late-target")
+			if tg == nil {
+				continue
+			}
+			var body []*ymodel.Node
+			switch rapid.IntRange(0, 2).Draw(t, "late-content") {
+			case 0:
+				body = []*ymodel.Node{leaf(name)}
+			case 1:
+				body = []*ymodel.Node{choice(name)}
+			default:
+				body = []*ymodel.Node{{Kind: ymodel.KContainer, Name: name, Body: ymodel.Body{Nodes: []*ymodel.Node{choice(name + "x")}}}}
+			}
+			from.Augments = append(from.Augments, &ymodel.Augment{Path: tg.Path, Body: ymodel.Body{Nodes: body}})
+			feats = append(feats, "augment-through-implicit-case")
+		case "choice-into-choice":
+			tg := pick(func(x schema.Target) bool { return x.Node.Kind == ymodel.KChoice }, "choice-target")
+			if tg == nil {
+				continue
+			}
+			from.Augments = append(from.Augments, &ymodel.Augment{Path: tg.Path, Body: ymodel.Body{Nodes: []*ymodel.Node{choice(name)}}})
+			feats = append(feats, "augment-puts-choice-into-choice")
+		case "shorthand-choice":
+			tg := pick(func(x schema.Target) bool { return plain[x.Node] && holder(x.Node.Kind) }, "holder-target")
+			if tg == nil {
+				continue
+			}
+			from.Augments = append(from.Augments, &ymodel.Augment{Path: tg.Path, Body: ymodel.Body{Nodes: []*ymodel.Node{choice(name), leaf(name + "z")}}})
+			feats = append(feats, "augment-brings-shorthand-choice")
+		default:
+			tg := pick(func(x schema.Target) bool { return true }, "deviation-target")
+			if tg == nil {
+				continue
+			}
+			from.Deviations = append(from.Deviations, &ymodel.Deviation{Path: tg.Path, Deviates: []*ymodel.Deviate{{Kind: "not-supported"}}})
+			feats = append(feats, "not-supported/"+tg.Node.Kind)
+		}
+	}
+	return feats
+}
+
 func gen(t *rapid.T) Case {
 	o := ymodel.DefaultOpts()
 	set, _ := schema.Generate(t, o)
 	schema.AddAugments(t, set, 0, 4)
 	c := Case{Set: set}
+	if rapid.IntRange(0, 3).Draw(t, "wild") == 0 {
+		c.Wild = addWild(t, set)
+	}
 	if rapid.IntRange(0, 7).Draw(t, "plant-in-rpc") == 0 && plantInRPC(t, set) {
 		c.Late = "unknown-type-below-rpc-input-output"
 	}
@@ -279,9 +379,9 @@ func TestCheck(t *testing.T) {
 	ev.Run(t, ev.Spec[Case]{
 		ID:    "C04",
 		Level: "exploration",
-		Rule: "module sets generated valid by construction from the schema model (1-3 modules with imports under arbitrary prefixes, 0-2 submodules each with nested includes, typedefs and groupings at every scope from a three-name pool, uses nested to depth 3 across modules and submodules, containers, lists, leaves, leaf-lists, choices with explicit and shorthand cases, anydata/anyxml, rpc/action/notification with and without input/output, augments chained across modules) in model or permuted load order, plus sets with a planted late problem (two augments colliding on a child name, inapplicable deviations). " +
+		Rule: "module sets generated valid by construction from the schema model (1-3 modules with imports under arbitrary prefixes, 0-2 submodules each with nested includes, typedefs and groupings at every scope from a three-name pool, uses nested to depth 3 across modules and submodules, containers, lists, leaves, leaf-lists, choices with explicit and shorthand cases, anydata/anyxml, rpc/action/notification with and without input/output, augments chained across modules) in model or permuted load order; a quarter of the sets further carry statements for which only the invariant is the oracle (augments whose path names the implicit case of a shorthand choice member, choices put straight into a choice or brought as shorthand members by an augment, deviate not-supported of any node including rpc input/output); plus sets with a planted late problem (two augments colliding on a child name, inapplicable deviations). " +
 			"Oracle when Process() is clean: full walk of every module tree over Dir and RPC input/output: key = child name, parent link = holder (input/output -> rpc/action), every *Entry met once (no sharing between places, uses or modules), kind/child map/list attributes/type mutually consistent, every child of a choice a case, no augment left, no node with a recorded error, GetErrors() empty; with a planted late problem Process() must report an error. " +
-			"Non-trivial = clean set whose trees contain a node that went through >= 2 copy/merge steps (uses in uses, uses+augment, include+uses; known from the model), or a planted late problem; distinct by (set, order)",
+			"Non-trivial = clean set whose trees contain a node that went through >= 2 copy/merge steps (uses in uses, uses+augment, include+uses; known from the model), or that carries one of the invariant-only statements, or a planted late problem; distinct by (set, order)",
 		Assumptions: []string{
 			"submodule trees are walked for parent links, consistency and errors but are not part of the sharing clause",
 			"sets that goyang rejects although they are valid by construction are left to C06/C07/C09",
